@@ -2713,6 +2713,10 @@ def prune_unused_graph_inputs_ir(graph: ir.Graph) -> None:
         # function arguments (named ``in_<index>`` by IRContext.add_input_for_invar).
         if name.startswith("in_"):
             suffix = name[3:]
+            # ``in_<index>_nchw`` is the same positional argument exposed in
+            # NCHW layout by ``inputs_as_nchw``.
+            if suffix.endswith("_nchw"):
+                suffix = suffix[: -len("_nchw")]
             if suffix.isdigit():
                 return True
         return False
